@@ -168,7 +168,7 @@ def check(run, views, tier):
             run.anchor_lost("R-CONTAINER", "ipp::attribute::IppAttributeGroup::new")
         else:
             r = paths_of(gb)[0].ret
-            ok = r[0] == "ctor" and isinstance(r[2], dict) and r[2].get("tag") == ("var", "tag") and is_call(r[2].get("attributes")) and r[2]["attributes"][1].endswith("::new")
+            ok = r[0] == "ctor" and isinstance(r[2], dict) and r[2].get("tag") == ("var", "tag") and is_call(r[2].get("attributes")) and r[2]["attributes"][1].split("::")[-1] in ("new", "with_capacity", "default", "with_hasher", "with_capacity_and_hasher")
             run.ob("R-CONTAINER", "IppAttributeGroup::new(tag) = {tag, empty map}", ok, tshow(r)[:160], site(gb), key="R-CONTAINER|group-new")
         # type facts
         adt = F.adts.get("ipp::value::IppValue")
@@ -200,7 +200,7 @@ def check(run, views, tier):
             run.anchor_lost("R-CONTAINER", NEXT)
             continue
         paths = paths_of(nb)
-        run.floor("R-CONTAINER", len(paths), 6, "paths through the value iterator")
+        run.floor("R-CONTAINER", len(paths), 4, "paths through the value iterator")
         IDX = ("field", ("var", "self"), "index")
         arms = {"Array": 0, "Collection": 0, "_": 0}
         for p in paths:
@@ -222,7 +222,7 @@ def check(run, views, tier):
                 el = r[2][0]
                 if arm == "Array":
                     ok_el = el[0] == "index" and el[2] == IDX and el[1][0] == "proj" and el[1][1] == ("field", ("var", "self"), "value")
-                    guard = any(c[0] == "if" and c[2] is True and c[1][0] == "bin" and c[1][1] == "Lt" and c[1][2] == IDX and is_call(c[1][3]) and c[1][3][1].endswith("::len")
+                    guard = any(c[0] in ("if", "guard") and c[2] is True and c[1][0] == "bin" and c[1][1] == "Lt" and c[1][2] == IDX and is_call(c[1][3]) and c[1][3][1].endswith("::len")
                                 for c in p.conds)
                     run.ob("R-CONTAINER", "iterator[Array]: yields array[old index]", ok_el, "yields %s" % tshow(el)[:120], site(nb), key="R-CONTAINER|next|Array|element")
                     run.ob("R-CONTAINER", "iterator[Array]: guarded by index < len", guard, pc, site(nb), key="R-CONTAINER|next|Array|guard")
@@ -243,7 +243,14 @@ def check(run, views, tier):
                            "unrecognised collection traversal: %s (accepted: map.iter().nth(index).1 / map.values().nth(index))" % why, site(nb),
                            key="R-CONTAINER|next|Collection|element")
                 else:
-                    guard = any(c[0] == "if" and c[2] is True and c[1] == ("bin", "Eq", IDX, ("lit", 0)) for c in p.conds)
+                    guard = any(c[0] in ("if", "guard") and c[2] is True and c[1] == ("bin", "Eq", IDX, ("lit", 0)) for c in p.conds)
+                    # the scalar arm must be unreachable for containers: both container arms are earlier and unguarded
+                    for c in p.conds:
+                        if c[0] == "match" and c[1] == ("field", ("var", "self"), "value") and c[4].get("k") in ("wild", "bind"):
+                            excl = all(any(("::" + kind) in e for e in c[5]) for kind in ("Array", "Collection"))
+                            run.ob("R-CONTAINER", "iterator[scalar]: the catch-all arm cannot be reached by a set or collection", excl,
+                                   "the catch-all arm is reached when an earlier guarded arm %s matches and its guard fails: an exhausted or empty set / collection "
+                                   "would be yielded as its own single element" % (c[6] if len(c) > 6 else []), site(nb), key="R-CONTAINER|next|scalar|container-falls-through")
                     run.ob("R-CONTAINER", "iterator[scalar]: yields the value itself, once (index == 0)", guard and el == ("field", ("var", "self"), "value"),
                            "yields %s under [%s]" % (tshow(el), pc), site(nb), key="R-CONTAINER|next|scalar")
             elif is_none:
